@@ -82,6 +82,10 @@ class Check:
             fn()
         except Inconclusive as e:
             self.inconc(rule, str(e))
+        except Exception as e:  # analyser error: fail closed for this rule only
+            import traceback
+            tb = traceback.format_exc().strip().splitlines()
+            self.inconc(rule, "analyser error: " + repr(e) + " @ " + (tb[-3].strip() if len(tb) >= 3 else ""))
 
     def unit(self, name, n=1):
         self.units[name] = self.units.get(name, 0) + n
